@@ -501,14 +501,53 @@ func ntsVerdicts(b []byte, reqUID []byte) (dec, uid, open bool) {
 	if !dec {
 		return
 	}
-	uid = bytes.Equal(pkt.UniqueID.ID, reqUID)
-	aead, err := miscreant.NewAEAD("AES-CMAC-SIV", ntsS2C, 16)
-	if err != nil || len(pkt.Auth.Nonce) != aead.NonceSize() || pkt.Auth.VerifC10Pos() > len(b) {
+	// Which identifier, nonce, ciphertext and associated data count is read with the harness's own
+	// field walk (RFC 8915 5.7: what precedes the first authenticator), not with the decoder under
+	// test: a decoder that lets bytes behind the authenticator take effect must not shape the oracle.
+	authUID, pos, nonce, ct, ok := ntsOwnParse(b)
+	if !ok {
 		return
 	}
-	_, err = aead.Open(nil, pkt.Auth.Nonce, pkt.Auth.CipherText, b[:pkt.Auth.VerifC10Pos()])
+	uid = bytes.Equal(authUID, reqUID)
+	aead, err := miscreant.NewAEAD("AES-CMAC-SIV", ntsS2C, 16)
+	if err != nil || len(nonce) != aead.NonceSize() {
+		return
+	}
+	_, err = aead.Open(nil, nonce, ct, b[:pos])
 	open = err == nil
 	return
+}
+
+// ntsOwnParse: the extension fields of b up to and including the first authenticator (a field is
+// looked at only while at least 28 bytes remain): the last unique identifier in front of the
+// authenticator, the authenticator's offset, nonce and ciphertext.
+func ntsOwnParse(b []byte) (uid []byte, pos int, nonce, ct []byte, ok bool) {
+	pos = 48
+	for len(b)-pos >= 28 {
+		typ := int(b[pos])<<8 | int(b[pos+1])
+		l := int(b[pos+2])<<8 | int(b[pos+3])
+		if l < 4 || l > len(b)-pos {
+			return nil, 0, nil, nil, false
+		}
+		switch typ {
+		case 0x104:
+			uid = b[pos+4 : pos+l]
+		case 0x404:
+			f := b[pos : pos+l]
+			if len(f) < 8 {
+				return nil, 0, nil, nil, false
+			}
+			nl := int(f[4])<<8 | int(f[5])
+			cl := int(f[6])<<8 | int(f[7])
+			np := (nl + 3) &^ 3
+			if 8+np+cl > len(f) || nl > np {
+				return nil, 0, nil, nil, false
+			}
+			return uid, pos, f[8 : 8+nl], f[8+np : 8+np+cl], uid != nil
+		}
+		pos += l
+	}
+	return nil, 0, nil, nil, false
 }
 func (l ipLive) transport() (string, string) {
 	return "ip", fmt.Sprintf("server=%d", thePeer.srcNum(srcServer))
@@ -685,6 +724,14 @@ func goClockOffset(t0, t1, t2, t3 int64) (int64, int64) {
 	u := func(x int64) time.Time { return time.Unix(0, x) }
 	return int64(ntp.ClockOffset(u(t0), u(t1), u(t2), u(t3))), int64(ntp.RoundTripDelay(u(t0), u(t1), u(t2), u(t3)))
 }
+
+// receive timestamps of the datagrams sent so far: refused (with the ops of that exchange) / acceptable
+// in the exchange they were sent in; the ops of the exchange recorded last
+var (
+	rxRefused    = map[ntp.Time64][]string{}
+	rxAcceptable = map[ntp.Time64]bool{}
+	lastExchOps  []string
+)
 
 // acceptable: the conditions of property C05 evaluated on the bytes the peer crafted.
 func acceptable(p *peer, d dgram, ri reqInfo, prevSRx ntp.Time64, ref int64, cfg exchCfg) bool {
@@ -1065,6 +1112,32 @@ func recordIP(c *lib.Ctx, tag string, cfg exchCfg, res exchResult) int {
 		}
 	}
 	c.Emit(op, ans)
+	lastExchOps = []string{opReq, op}
+	// direct oracle across exchanges (C05: "every other datagram is skipped or yields an error, never an
+	// offset"): a response evaluated as interleaved takes t1 from the client's state; that receive
+	// timestamp must not be the one of a datagram which, by the harness's own reading of the bytes
+	// it sent, did not meet the acceptance conditions in the exchange it was sent in.
+	if accepted && acceptedIL && cfg.setPrev == nil {
+		if ops, bad := rxRefused[res.prev0.SRxTime]; bad && !rxAcceptable[res.prev0.SRxTime] {
+			c.Fail("C05:offset-from-refused-datagram",
+				"the reported offset is computed from the receive timestamp of a datagram of an earlier exchange that did not meet the acceptance conditions (it was refused there, yet its timestamps stayed in the client's interleaved-mode state)",
+				append(append([]string(nil), ops...), opReq, op), map[string]any{"t1": f64(res.prev0.SRxTime), "offset": int64(res.off)})
+		}
+	}
+	for _, d := range res.sent {
+		if len(d.b) < 48 {
+			continue
+		}
+		rx := be64(d.b[32:])
+		if rx == (ntp.Time64{}) {
+			continue
+		}
+		if acceptable(p, d, res.ri, res.prev0.SRxTime, res.now0, cfg) {
+			rxAcceptable[rx] = true
+		} else if _, ok := rxRefused[rx]; !ok {
+			rxRefused[rx] = []string{opReq, op}
+		}
+	}
 	// direct oracles on the datagram the result stems from (C05 origin clause, C13 client clause):
 	// every (datagram, reading) of the delivered sequence that reproduces the returned result is
 	// judged by the property's own predicate on the bytes the peer sent
